@@ -1045,6 +1045,10 @@ class SCFGIO:
         scfg = SCFGIO.make_scfg(
             graph_dict, outer_graph, block_ref_dict, name_gen
         )
+        # The outermost regions are contained in the meta region.
+        for block in scfg.graph.values():
+            if isinstance(block, RegionBlock):
+                object.__setattr__(block, "parent_region", scfg.region)
 
         return scfg, block_ref_dict
 
@@ -1116,6 +1120,9 @@ class SCFGIO:
                     block_info["exiting"],
                 )
                 block_info.pop("contains")
+                # The parent is recorded by name only, the actual parent
+                # region block is linked in once it exists.
+                block_info.pop("parent_region", None)
 
             block_class = block_type_names[block_type]
             block = block_class(
@@ -1124,6 +1131,15 @@ class SCFGIO:
                 _jump_targets=block_edges,
                 **block_info,
             )
+            if isinstance(block, RegionBlock):
+                # The sub-graph represents this region and the regions
+                # directly inside it have this region as their parent.
+                subregion = block.subregion
+                assert subregion is not None
+                object.__setattr__(subregion, "region", block)
+                for inner in subregion.graph.values():
+                    if isinstance(inner, RegionBlock):
+                        object.__setattr__(inner, "parent_region", block)
 
             scfg_graph[current_name] = block
             if current_name != exiting:
